@@ -140,3 +140,36 @@ Theorem C20_code_realloc_multiple : forall a b, a < 2^64 -> b < 2^64 ->
   g_cbor_realloc_multiple (Z.of_N a) (Z.of_N b) = option_map Z.of_N (alloc_multiple_req 64 a b).
 Proof. exact bridge_realloc_multiple. Qed.
 Print Assumptions C20_code_alloc_multiple.
+
+(* ------------------------------------------------------------------------------------------ *)
+(* The sums of cbor_serialized_size as the C source of this run has them (gen/Gen_effects_ser.v,
+   translator/effects.py; Bridge_effects_ser.v; HPlansSer_proofs.v): every round of a size loop adds the
+   size of one part with the guarded sum _cbor_safe_signaling_add — never with a plain + — and the total
+   starts from the head computed from the size. *)
+From CB Require Import HPlansSer HPlansSer_proofs Bridge_effects_ser.
+From CBGen Require Import Gen_effects_ser.
+
+Theorem C20_code_ssize_array_round_followed : forall al cc ctrl dst len_ ty v w g8 total k acc x r c1,
+  k < total -> total < 2 ^ 64 -> acc < 2 ^ 64 -> ssize x < 2 ^ 64 -> cc < 2 ^ 64 -> k <= cc -> c1 < 2 ^ 64 ->
+  let p := Gcbor_serialized_size_loop2 al (Z.of_N cc) ctrl dst (Z.of_N total) len_ ty v w g8 (Z.of_N k) (Z.of_N acc) (Z.of_N (ssize x)) (Z.of_N c1) in
+  to_head 2 p = true /\ HPlans_proofs.fieldN "round" p = k + 1 /\
+  p_reqs p = [size_call (PSlot slots0 (Z.of_N k) ""%string)] /\
+  fold_left (fun acc x => ssadd acc (ssize x)) (x :: r) acc =
+  fold_left (fun acc x => ssadd acc (ssize x)) r (HPlans_proofs.fieldN "acc0" p).
+Proof. exact code_ssize_array_round_followed. Qed.
+Print Assumptions C20_code_ssize_array_round_followed.
+
+Theorem C20_ssize_array_follows_plan : forall indef xs w length value ctrl g8 c,
+  let p := ssize_plan TY_ARRAY w (negb indef) length (len xs) value ctrl g8 c in
+  to_head 2 p = true /\ p_reqs p = [] /\
+  ssize (IArray indef xs) = fold_left (fun acc x => ssadd acc (ssize x)) xs (HPlans_proofs.fieldN "acc0" p).
+Proof. exact ssize_array_follows_plan. Qed.
+
+Theorem C20_ssize_map_round_follows_plan : forall total k acc kv r,
+  k < total ->
+  let p := ssize_map_round_plan total k acc (ssize (fst kv)) (ssize (snd kv)) in
+  to_head 3 p = true /\ HPlans_proofs.fieldN "round" p = k + 1 /\
+  fold_left (fun acc kv => ssadd acc (ssadd (ssize (fst kv)) (ssize (snd kv)))) (kv :: r) acc =
+  fold_left (fun acc kv => ssadd acc (ssadd (ssize (fst kv)) (ssize (snd kv)))) r (HPlans_proofs.fieldN "acc0" p).
+Proof. exact ssize_map_round_follows_plan. Qed.
+Print Assumptions C20_ssize_map_round_follows_plan.
